@@ -36,7 +36,11 @@ def rerun(ctx, case):
     d = os.path.join(ctx.work, "confirm")
     os.makedirs(d, exist_ok=True)
     cf, out = os.path.join(d, "c.ndjson"), os.path.join(d, "t.tsv")
-    open(cf, "w").write(case["desc"] + "\n")
+    # the case with ALL its character variants, in the order of the sweep: what an evaluation leaves behind in the process
+    # (a cache keyed on a normalised text, say) is part of what made the observed line
+    d0 = json.loads(case["desc"])
+    d0["variant"] = -1
+    open(cf, "w").write(json.dumps(d0) + "\n")
     ctx.harness(["c12-scan", "-in", cf, "-out", out])
     tf = os.path.join(d, "t.ndjson")
     with open(tf, "w") as w:
